@@ -185,6 +185,15 @@ func (s *src) inlineClosures(body *ast.BlockStmt) {
 					v.Call.Fun = fl
 				}
 			}
+		case *ast.ReturnStmt:
+			// `f := func…; …; return f` / `return id, f, nil`: the queries look for the literal among the results
+			for i, r := range v.Results {
+				if id, ok := r.(*ast.Ident); ok {
+					if fl, ok := lits[id.Name]; ok {
+						v.Results[i] = fl
+					}
+				}
+			}
 		case *ast.CallExpr:
 			// only where a query looks INTO the argument literals: the adapters LinkStream hands to LinkMessage
 			if s.calleeIs(v, "LinkMessage") {
